@@ -99,7 +99,8 @@ pub fn decode_seq(u: &mut Unstructured, cap: usize) -> SeqDesc {
 pub fn skewed_seq(j: u64) -> SeqDesc {
     let k = 16 + (j % 6) as u32;
     let delta: i64 = [0, -1, 1][(j / 6) as usize % 3];
-    let t = [1000usize, 33, 4095, 64][(j / 18) as usize % 4];
+    // the sparse tail holds 33..8192 values: 4096 and 8192 make n an exact multiple of the selector's inventory size
+    let t = [1000usize, 4096, 33, 4095, 8192, 64][(j / 18) as usize % 6];
     let a = (1usize << (k - 13)) + (1usize << (k - 15)) + (j / 72) as usize % 3;
     let n = 4096 * a + t;
     let dense = 1500 * a;
@@ -111,7 +112,8 @@ pub fn skewed_seq(j: u64) -> SeqDesc {
     for i in 0..t {
         values.push(dense + i * (u - dense) / t);
     }
-    SeqDesc { values, u, builder: (j % N_BUILDERS as u64) as u8, backend: ((j / 4) % N_BACKENDS as u64) as u8, seed: j }
+    // 5 and 9 are coprime: every run of 9 consecutive j meets every back-end, whatever the other digits of j select
+    SeqDesc { values, u, builder: ((j / 3) % N_BUILDERS as u64) as u8, backend: ((j * 5 + j / 54) % N_BACKENDS as u64) as u8, seed: j }
 }
 
 fn sm(x: &mut u64) -> u64 {
